@@ -54,12 +54,22 @@ Theorem C01_validation_delivers_nothing : forall s o,
   finals (process H s o) = finals s /\ rlog (process H s o) = rlog s.
 Proof. exact (process_delivers_nothing H). Qed.
 
+(* across a restart, with several versions of a name around: Recover hands a held
+   (.wait) body to finalisation under the identity written in the companion only if
+   the body hashes to that companion's hash (fix "Recover checks the held file
+   against its companion"); otherwise nothing is put away for this companion *)
+Theorem C01_recover_finalizes_only_checked : forall s fin val n c s' fin' val',
+  recover_one H (s, fin, val) (n, c) = (s', fin', val') -> fin' <> fin ->
+  exists b, alookup n (waits s) = Some b /\ H b = c_hash c /\ waits s' = waits s.
+Proof. exact (recover_one_finalizes_checked H). Qed.
+
 End C01.
 Print Assumptions C01_delivered_valid_on_D.
 Print Assumptions C01_byte_identical_on_D.
 Print Assumptions C01_validation_checks_hash.
 Print Assumptions C01_mismatch_reported_failed.
 Print Assumptions C01_validation_delivers_nothing.
+Print Assumptions C01_recover_finalizes_only_checked.
 
 (* Outside D (several versions of one name) the invariant is not proved. The
    history stale_ops (Proofs/StageP.v) - version 1 validated and held for a
